@@ -1,0 +1,34 @@
+//go:build verif
+
+// Contracts for the gowp verifier (/verif): comment-only file, compiled only with -tags verif.
+package rfc3962
+
+//@ func crypto/rfc3962.EncryptData(key, data, e) (iv, ct, err)
+//@   pure
+//@   trusted_frame returned slices are not tracked as fresh; in-place append into spare capacity cannot be excluded
+//@   requires len(data) > 0
+//@   requires tagof(e) == typeid("crypto.Aes128CtsHmacSha96") || tagof(e) == typeid("crypto.Aes256CtsHmacSha96")
+//@   ensures err == nil <==> et_encok(tagof(e), len(key), len(data))
+//@   ensures err == nil ==> len(ct) == et_ctlen(tagof(e), len(data))
+//@ func crypto/rfc3962.DecryptData(key, data, e) (pt, err)
+//@   pure
+//@   trusted_frame returned slices are not tracked as fresh; in-place append into spare capacity cannot be excluded
+//@   requires tagof(e) == typeid("crypto.Aes128CtsHmacSha96") || tagof(e) == typeid("crypto.Aes256CtsHmacSha96")
+//@   ensures err == nil <==> et_decok(tagof(e), len(key), len(data))
+//@   ensures err == nil ==> len(pt) == len(data)
+//@   ensures err != nil ==> len(pt) == 0
+//@ func crypto/rfc3962.DecryptMessage(key, ciphertext, usage, e) (pt, err)
+//@   pure
+//@   trusted_frame returned slices are not tracked as fresh; in-place append into spare capacity cannot be excluded
+//@   ensures err != nil ==> len(pt) == 0
+//@ func crypto/rfc3962.EncryptMessage(key, message, usage, e) (iv, ct, err)
+//@   pure
+//@   trusted_frame returned slices are not tracked as fresh; in-place append into spare capacity cannot be excluded
+//@ func crypto/rfc3962.StringToKey(secret, salt, s2kparams, e) (k, err)
+//@   pure
+//@   trusted_frame returned slices are not tracked as fresh; in-place append into spare capacity cannot be excluded
+//@   requires tagof(e) == typeid("crypto.Aes128CtsHmacSha96") || tagof(e) == typeid("crypto.Aes256CtsHmacSha96")
+//@ func crypto/rfc3962.StringToKeyIter(secret, salt, iterations, e) (k, err)
+//@   pure
+//@   trusted_frame returned slices are not tracked as fresh; in-place append into spare capacity cannot be excluded
+//@   requires tagof(e) == typeid("crypto.Aes128CtsHmacSha96") || tagof(e) == typeid("crypto.Aes256CtsHmacSha96")
